@@ -16,6 +16,17 @@ CLAIMS["C01"] = dict(
   technique="edge dominance + must-pass-through path search on SSA, same-value provenance",
   ref="DESIGN.md §3 C01")
 
+CLAIMS["C09"] = dict(
+  text="All-paths rules over the walk callback, the recursive walker, the dispatch function, StatusFromErr and Scan: errors derived from file-system operations abort the walk only under errorOnFSErrors and do abort it then; listing/stat failures are reported to the callback with the error and the walker never originates SkipDir; the DirEntry is only touched when fserr==nil; failed Open/Stat/Extract are recorded under the running extractor's name on every path; statuses are built per configured extractor from maps keyed by its name, failed vs partially-succeeded follows 'partial'; the lazy stat cache cannot keep a stale error; Run errors always reach the overall status; the gitignore pop is guarded. Level 'other': necessary conditions for every fault sequence; which files are extracted under a fault is not decided.",
+  note="Trusted: go/ssa CFG and def-use; error provenance follows fmt.Errorf/errors.Join arguments, phis and locals only.",
+  technique="error-provenance dataflow + edge dominance + must-pass-through on SSA",
+  ref="DESIGN.md §3 C09")
+CLAIMS["C10"] = dict(
+  text="All-paths rules: the inode counter is incremented and compared ('> limit', limit>0, after the increment) before any other work of the callback and the failing edge returns an error; every dispatch is behind 'limit off' or a passed 'size > limit' comparison on the symlink-following lazy Stat size, and the memoised size can only hold a passed value; ctx.Err() is tested before per-file work and inside the standalone/detector plugin loops and its error is returned; layer files are written through io.LimitReader(MaxFileBytes), rejected at '>= limit', never inserted after a failure; unpack checks the header size before reading. Level 'other': the comparison operators and their placement are decided for all inputs; counts over concrete trees and cancellation inside an extraction are not.",
+  note="Trusted: go/ssa; comparison normal forms (operand order / negation) as listed in DESIGN.md §2.1; os.File/io API contracts.",
+  technique="edge dominance with normalised comparison patterns, phi provenance for the memoised size",
+  ref="DESIGN.md §3 C10")
+
 NA = {}
 
 
